@@ -24,6 +24,15 @@ class BadStr(Exception):
     __repr__ = __str__
 
 
+class BadStrRaisesBase(Exception):
+    """str() raises something that is not an Exception subclass."""
+
+    def __str__(self):
+        raise UserBase("str() raised a BaseException")
+
+    __repr__ = __str__
+
+
 class UnicodeErr(Exception):
     def __str__(self):
         return "café \U0001f600 \x00 line\nbreak"
@@ -82,6 +91,7 @@ POOL = {
     "DeepUserError": DeepUserError,
     "MixedError": MixedError,
     "BadStr": BadStr,
+    "BadStrRaisesBase": BadStrRaisesBase,
     "FalsyError": FalsyError,
     "EmptyErrors": EmptyErrors,
     "UnicodeErr": UnicodeErr,
